@@ -617,7 +617,7 @@ func (r *runner) causal(it Item) bool {
 			want = 1
 		}
 		return r.count("blank") == want
-	case "hdr", "data", "totals":
+	case "hdr", "data", "totals", "end":
 		return r.count("query") == 1
 	}
 	return true
